@@ -18,12 +18,17 @@ import (
 // The else arm of `if c` is canonCond(c, true); an early exit `if c { return }` contributes canonCond(c, true) to what
 // follows it.
 func canonCond(e ast.Expr, neg bool) string {
+	return canonCondWith(e, neg, func(l ast.Expr) string { return nospace(l) })
+}
+
+// canonCondWith is canonCond with a caller-supplied rendering of the leaves (operands of comparisons, atoms).
+func canonCondWith(e ast.Expr, neg bool, leaf func(ast.Expr) string) string {
 	switch x := e.(type) {
 	case *ast.ParenExpr:
-		return canonCond(x.X, neg)
+		return canonCondWith(x.X, neg, leaf)
 	case *ast.UnaryExpr:
 		if x.Op == token.NOT {
-			return canonCond(x.X, !neg)
+			return canonCondWith(x.X, !neg, leaf)
 		}
 	case *ast.BinaryExpr:
 		switch x.Op {
@@ -48,7 +53,7 @@ func canonCond(e ast.Expr, neg bool) string {
 					flat(b.Y)
 					return
 				}
-				s := canonCond(e, neg)
+				s := canonCondWith(e, neg, leaf)
 				// parenthesise a sub-term of the other connective
 				if b, ok := stripParens(e).(*ast.BinaryExpr); ok && (b.Op == token.LAND || b.Op == token.LOR) {
 					s = "(" + s + ")"
@@ -67,7 +72,7 @@ func canonCond(e ast.Expr, neg bool) string {
 			if neg {
 				op = negateOp(op)
 			}
-			ls, rs := nospace(stripParens(l)), nospace(stripParens(r))
+			ls, rs := leaf(stripParens(l)), leaf(stripParens(r))
 			if strings.HasPrefix(ls, "len(") && strings.HasSuffix(ls, ")") {
 				switch {
 				case (op == token.NEQ && rs == "0") || (op == token.GEQ && rs == "1"):
@@ -79,7 +84,7 @@ func canonCond(e ast.Expr, neg bool) string {
 			return ls + op.String() + rs
 		}
 	}
-	s := nospace(stripParens(e))
+	s := leaf(stripParens(e))
 	if !neg {
 		return s
 	}
@@ -155,8 +160,10 @@ func canonText(s string, neg bool) string {
 		return v
 	}
 	out := s
-	if e, err := parser.ParseExpr(s); err == nil {
-		out = canonCond(e, neg)
+	// the placeholders of the normal form ($n numbered locals, #n loop positions) are not Go identifiers
+	enc := strings.NewReplacer("$", "DOLLAR_", "#", "HASH_").Replace(s)
+	if e, err := parser.ParseExpr(enc); err == nil {
+		out = strings.NewReplacer("DOLLAR_", "$", "HASH_", "#").Replace(canonCond(e, neg))
 	} else if neg {
 		out = "!(" + s + ")"
 	}
